@@ -31,7 +31,11 @@ def pattern(tag, off, n):
     """deterministic, position-dependent payload so that reordering/duplication is visible"""
     base = _PAT.get(tag)
     if base is None:
-        base = bytes(((j * 31 + (j >> 8) * 7 + tag * 101 + 13) & 0xFF) for j in range(1 << 17))
+        b0 = _PAT.get(None)
+        if b0 is None:
+            b0 = _PAT[None] = bytes(((j * 31 + (j >> 8) * 7 + 13) & 0xFF) for j in range(1 << 17))
+        sh = (tag * 101) & 0xFF
+        base = b0.translate(bytes((v + sh) & 0xFF for v in range(256)))
         _PAT[tag] = base
     return base[off:off + n]
 
@@ -621,6 +625,13 @@ def gen_case(rng, profile, quick=True):
         c["iters"] = 120
     if profile in ("bulk", "close") and rng.random() < 0.3:
         c["latency"] = False
+    if profile == "many":
+        # a burst of many short connections: the peer finds dozens of messages in a single read
+        nflows = rng.randint(34, 48)
+        c["lbs"] = rng.choice([100, 2048, 32768])
+        c["iters"] = 30
+        c["burst"] = True
+        big = False
     if profile == "reuse":
         # an application that goes away mid-download (its socket stops accepting data and reports
         # end-of-stream) while the destination still has a lot queued towards it, followed at once by
@@ -637,6 +648,15 @@ def gen_case(rng, profile, quick=True):
         app = {"tag": 2 * i + 1, "data": size(), "close": rng.random() < 0.8}
         dst = {"tag": 2 * i + 2, "data": size(), "close": rng.random() < 0.8,
                "connect": rng.choice([["d"], ["p", "d"], ["p", "p", "p", "d"], ["p", "k"]])}
+        if profile == "many" and i == 0 and rng.random() < 0.7:
+            # one bulk upload among them: the uploading end will be paused by latency control
+            app = {"tag": 1, "data": min(40000, c["lbs"] + rng.choice([2049, 8000])), "close": True, "p_recv": 1.0,
+                   "chunks": [65536]}
+            dst = {"tag": 2, "data": 0, "close": rng.random() < 0.5, "connect": ["d"]}
+        elif profile == "many":
+            app["data"] = rng.choice([0, 1, 3, 50])
+            dst["data"] = rng.choice([0, 1, 3, 50, 300])
+            dst["connect"] = ["d"]
         if profile == "close":
             app["close"] = rng.random() < 0.9
             dst["close"] = rng.random() < 0.9
@@ -675,6 +695,18 @@ def run_case(ctx, case):
     try:
         pending = [(dict(a), dict(d)) for a, d in case["flows"]]
         w.snapshot()
+        if case.get("burst"):
+            while pending:
+                a, d = pending.pop(0)
+                w.new_flow(a, d)
+                w.iterate("c")
+            # ... and the client runs alone for a while: everything it has to say (CONNECT, DATA, EOF of
+            # every flow) is on the link before the server reads for the first time, and nothing follows
+            for side in ("c", "s"):
+                for it in range(case.get("solo", 600)):
+                    w.iterate(side)
+                    if it > 12 and not w.mux[side].outbuf:
+                        break
         for it in range(case["iters"]):
             if w.crash:
                 break
@@ -764,6 +796,21 @@ def check_oracles(w):
                     out["C02"].append(("quiescent, yet a finished flow still has its handler (and its socket): "
                                        "the last flag was set by pre_select, no callback follows",
                                        {"side": side, "flow": f, "ok": bool(p.ok), "finding_id": "F20"}))
+    # at quiescence no complete message may sit undispatched in a Mux input buffer
+    if getattr(w, "calm", 0) >= 3 and not w.crash:
+        for side in ("c", "s"):
+            stuck = decode_frames(bytes(w.mux[side].inbuf))
+            kinds = sorted(set(cmd for _, cmd, _ in stuck))
+            det = {"side": side, "undispatched_messages": len(stuck), "commands": ["%04x" % k for k in kinds]}
+            if any(k in (0x4201, 0x4202) for k in kinds):
+                out["C09"].append(("quiescent although a round-trip request or its answer has been read from the tunnel "
+                                   "and was never dispatched", det))
+            if any(k in (0x4203, 0x4206) for k in kinds):
+                out["C01"].append(("quiescent although a connection request or payload has been read from the tunnel "
+                                   "and was never dispatched", det))
+            if any(k in (0x4204, 0x4205) for k in kinds):
+                out["C02"].append(("quiescent although an end-of-stream / stop message has been read from the tunnel "
+                                   "and was never dispatched", det))
     if w.crash and not any(d.get("connect", [""])[-1] == "x" for _, d in w.case["flows"]):
         out["C08"].append(("an event loop died: %s" % w.crash, {"exception": w.crash}))
     for side in ("c", "s"):
